@@ -1,23 +1,36 @@
 #!/bin/bash
-# Runs every seeded change under /verif/seeded against the quick check of the property it breaks
-# (scratch worktree, never /repo itself) and writes /verif/seeded/RESULTS.txt.
-# The checks run from a snapshot of /verif's HEAD (so that edits in progress do not disturb a long run);
-# the snapshot is removed at the end.
+# Runs seeded changes under /verif/seeded against the quick check of the property each breaks (scratch worktrees,
+# never /repo itself) and writes /verif/seeded/RESULTS.txt.  The checks run from a snapshot of /verif's HEAD (so that
+# edits in progress do not disturb a long run); the snapshot is removed at the end.
+# usage: mutation_matrix.sh [seed ...]      (default: all; PAR=<n> seeds in parallel, default 3)
+# A seed whose meta.json names "check_with": ["C13", ...] is run against those checks instead of its own property's.
 out=/verif/seeded/RESULTS.txt
 snap=$(mktemp -d /tmp/verifsnap-XXXXXX)
 git -C /verif archive HEAD | tar -x -C $snap
 export VERIF_HOME=$snap
-(cd $snap/engine && GOFLAGS=-mod=mod GOPROXY=off GOSUMDB=off GOTOOLCHAIN=local go build -o $snap/bin/gosymx ./cmd/gosymx)
-: > $out.tmp
-for d in /verif/seeded/C??-m?; do
-  s=$(basename $d); id=${s%%-*}
-  res=$($snap/tools/try_mutation.sh $d/patch.diff quick $id 2>/dev/null)
-  nv=$(echo "$res" | grep -c "^VIOLATION")
-  first=$(echo "$res" | grep "^VIOLATION" | head -1 | sed 's/.*(\(.*\))$/\1/' | cut -c1-160)
+(cd $snap/engine && GOFLAGS=-mod=mod GOPROXY=off GOSUMDB=off GOTOOLCHAIN=local go build -o $snap/bin/gosymx ./cmd/gosymx) || exit 2
+seeds="$@"
+[ -z "$seeds" ] && seeds=$(cd /verif/seeded && ls -d C??-m? C??-m?? 2>/dev/null)
+res=$(mktemp -d /tmp/verifmatrix-XXXXXX)
+one() {
+  s=$1; snap=$2; res=$3
+  d=/verif/seeded/$s; id=${s%%-*}
+  ids=$(python3 -c "import json,sys; m=json.load(open('$d/meta.json')); print(' '.join(m.get('check_with') or ['$id']))" 2>/dev/null || echo $id)
+  r=$($snap/tools/try_mutation.sh $d/patch.diff quick $ids 2>/dev/null)
+  nv=$(echo "$r" | grep -c "^VIOLATION")
+  first=$(echo "$r" | grep "^VIOLATION" | head -1 | sed 's/.*(\(.*\))$/\1/' | cut -c1-160)
   [ "$nv" -gt 0 ] && verdict=DETECTED || verdict=MISSED
-  # a seed whose patch no longer applies (the code it mutates was rewritten by a later fix) is stale, not missed
-  echo "$res" | grep -q "PATCH DOES NOT APPLY" && verdict=STALE-PATCH-NO-LONGER-APPLIES
-  echo "$s check=$id $verdict violations>=$nv  $first" >> $out.tmp
-done
-mv $out.tmp $out
-rm -rf $snap
+  if [ "$nv" -eq 0 ] && echo "$r" | grep -q "^ENGINE-ERROR"; then verdict=MISSED-ENGINE-ERROR-EXIT-2; first=$(echo "$r" | grep "^ENGINE-ERROR" | head -1 | cut -c1-160); fi
+  echo "$r" | grep -q "PATCH DOES NOT APPLY" && verdict=STALE-PATCH-NO-LONGER-APPLIES
+  echo "$s check=$(echo $ids | tr ' ' ',') $verdict violations>=$nv  $first" > $res/$s
+}
+export -f one
+echo $seeds | tr ' ' '\n' | xargs -P ${PAR:-3} -I{} bash -c "one {} $snap $res"
+if [ $# -gt 0 ] && [ -f $out ]; then
+  # partial run: replace the lines of the seeds that were run
+  for s in $seeds; do grep -v "^$s " $out > $out.tmp; mv $out.tmp $out; done
+  cat $res/* >> $out; sort -o $out $out
+else
+  cat $res/* | sort > $out
+fi
+rm -rf $snap $res
